@@ -105,6 +105,7 @@ type Term struct {
 	hasBound bool
 	id       int
 	rat      *big.Rat // for numeric literals
+	def      *Term    // for named array versions: the defining store term (asserted equal where the name is used)
 }
 
 var termCounter int
@@ -486,6 +487,12 @@ nofold:
 			return a
 		}
 	case "*":
+		if a.rat != nil && a.rat.Sign() == 0 {
+			return a
+		}
+		if b.rat != nil && b.rat.Sign() == 0 {
+			return b
+		}
 		if a.rat != nil && a.rat.Cmp(big.NewRat(1, 1)) == 0 {
 			return b
 		}
@@ -533,8 +540,17 @@ func Select(arr, idx *Term) *Term {
 	if arr.S.Kind != KArray {
 		panic("select on non-array " + arr.S.String())
 	}
-	// select(store(a,i,v), j): resolve when indices are syntactically equal or distinct literals
-	for arr.K == TApp && arr.Op == "store" {
+	// select(store(a,i,v), j): resolve when indices are syntactically equal or distinct literals,
+	// otherwise expand to ite(i = j, v, select(a, j)) (read-over-write), also through named versions
+	depth := 0
+	for {
+		if arr.K == TVar && arr.def != nil {
+			arr = arr.def
+			continue
+		}
+		if !(arr.K == TApp && arr.Op == "store") {
+			break
+		}
 		i := arr.Args[1]
 		if sameTerm(i, idx) {
 			return arr.Args[2]
@@ -542,6 +558,10 @@ func Select(arr, idx *Term) *Term {
 		if i.rat != nil && idx.rat != nil && i.rat.Cmp(idx.rat) != 0 {
 			arr = arr.Args[0]
 			continue
+		}
+		if depth < 12 && arr.S.Elem.Kind != KArray {
+			depth++
+			return Ite(Eq(i, idx), arr.Args[2], Select(arr.Args[0], idx))
 		}
 		break
 	}
